@@ -279,7 +279,7 @@ RAW_VMSTAT = [None, b"", b"pswpin 5\npswpout 6\n", b"pswpin 5\n", b"pswpout 6\n"
 
 
 def gen_cases(rng, tier):
-    n_rand = {"quick": 450, "thorough": 9000, "search": 700}[tier]
+    n_rand = {"quick": 360, "thorough": 8000, "search": 700}[tier]
     n_swap = {"quick": 300, "thorough": 6000, "search": 400}[tier]
     n_raw = {"quick": 150, "thorough": 2500, "search": 200}[tier]
     reps = {"quick": 1, "thorough": 6, "search": 1}[tier]
@@ -529,7 +529,7 @@ def judge(case, coq, impl):
     from pv.core import Verdict
     if case["kind"] == "phymem":
         return _judge_phymem(case, coq, impl)
-    main, side = impl
+    main, side = (impl, {}) if isinstance(impl, dict) else impl
     if coq.get("junk") and not LENIENT and not _finding_registered(FINDING_JUNK):
         coq = dict(coq, spec=None)      # not triaged yet: model only
     model, spec = coq["model"], coq["spec"]
@@ -707,23 +707,32 @@ def impl_run(case, coq, env):
                 side["cat_ok"] = ok and len(msgs) <= 1
                 vals.append(len(msgs) > 0)
                 side["sysinfo_calls"] = len(calls)
+        if main.get("t") != "Val":
+            return main      # an exception: nothing else to report (same shape as the model's outcome)
         return [main, side]
     finally:
         psutil.PROCFS_PATH, _pslinux.PAGESIZE, _pslinux.cext.linux_sysinfo = old_path, old_ps, old_si
 
 
 MANIFEST = {
-    "text": "Theorems (Coq 8.16, closed under the global context): for EVERY well-formed kernel record -- /proc/meminfo as any list of "
-            "kernel-formatted lines with distinct names (hence every subset and order of the optional fields, every magnitude, zero totals), "
-            "/proc/zoneinfo as any list of zone lines or absent, any page size -- the model of virtual_memory() returns exactly the demanded record: "
-            "fields = kernel kB x 1024 with the documented substitutions, used with its negative clamp, available = MemAvailable or (absent/zero) the "
-            "documented watermark estimate / free+cached, forced to 0 below 0 and to free above total, percent = nearest tenth of (total-available)/total*100 "
-            "(rounding function proved nearest-ties-to-even), warning names = exactly the metrics set to 0 (slab excepted); never an exception. "
-            "0<=available<=total and 0<=percent<=100 whenever free<=total (and a witness that this hypothesis is needed). swap_memory(), for every page size: total/free "
-            "from meminfo or sysinfo(2), used, percent, sin/sout = pages x page size (bytes; the literal-4096 conversion used before commit fe3ce75 is refuted by a 64K-page "
-            "witness), zeros + warning when vmstat or a swap counter is absent; 0<=percent<=100 when free<=total. The model is tied to the code by running the real psutil "
-            "(public API, fake /proc, patched sysinfo/PAGESIZE, captured warnings) on printed records (exhaustive over 512 field subsets and 96 availability paths) and on a malformed stream.",
-    "note": "Trusted: Coq kernel + vm_compute; hand-written model coq/C08/Model.v (tied by the correspondence run only); kernel formats and the fallback formula "
-            "in coq/C08/Spec.v; harness; CPython builtins and IEEE doubles (percent compared in tenths with a tie tolerance). Not covered: float overflow for values "
-            ">= 2^1024, float inexactness of the fallback above 2^53*1024 bytes, vmstat with only one of pswpin/pswpout (both reported 0: observation).",
+    "text": "Theorems (Coq 8.16, 28, all closed under the global context): for EVERY well-formed kernel record -- /proc/meminfo as any list of 'name number [rest]' "
+            "lines with distinct names (every subset and order of the optional fields, every magnitude, zero totals), /proc/zoneinfo as any list of lines with "
+            "low-watermark lines under any blanks and any number of zones or absent, any page size -- the model of virtual_memory() returns exactly the demanded "
+            "record: fields = kernel kB x 1024 with the documented substitutions, used with its negative clamp, available = MemAvailable or (absent/zero) the documented "
+            "watermark estimate / free+cached, forced to 0 below 0 and to free above total, percent = round-half-even to a tenth of (total-available)/total*100 (nearest/"
+            "ties-even characterised and unique), warning names = exactly the metrics set to 0 (slab excepted); never an exception. The estimate's int/float evaluation is "
+            "modelled with Python's typing and IEEE rounding (rnd53) and proved equal to the exact formula for every rounding operator that is exact on representable "
+            "numbers, under the stated bound (watermark multiple of 512, sum < 2^61 bytes; witness beyond it). Any zoneinfo content is irrelevant when it is not consulted; "
+            "arbitrary bytes give a record or IndexError/ValueError. 0<=available<=total and 0<=percent<=100 whenever free<=total (hypothesis necessary). "
+            "Known finding: every meminfo containing a line that is not 'name number' (the Linux 2.4 header) makes both calls raise (general theorem + witness); the "
+            "repaired lenient parser is proved correct at full strength. swap_memory(), every page size and every vmstat (repeated counters read as a log, extra columns, "
+            "value-less lines): total/free from meminfo or sysinfo(2), used, percent (half-even), sin/sout = pages x page size, zeros + warning when vmstat or a counter is "
+            "absent (literal-4096 conversion of before fe3ce75 refuted). _TOTAL_PHYMEM: virtual_memory() stores its total, Process.memory_percent() = value*100/cached total, "
+            "re-reads only when nothing/0 is cached, ValueError for a non-positive total; history theorem. The model is tied to the code by running the real psutil (public "
+            "API, fake /proc, patched sysinfo/PAGESIZE, captured warnings) on printed records (exhaustive over 512 field subsets and 96 availability paths, float path "
+            "above 2^53 compared exactly, percent compared exactly outside 1e-9 of a tie) and on a malformed stream.",
+    "note": "Trusted: Coq kernel + vm_compute; hand-written model coq/C08/Model.v (tied by the correspondence run only); kernel formats, the 2.4 header and the fallback "
+            "formula in coq/C08/Spec.v; harness; CPython builtins and IEEE doubles (mirrored by rnd53 for the estimate; usage_percent's doubles replaced by the exact "
+            "rational with a 1e-9 tie window). Not covered: float overflow >= 2^1024, int() 4300-digit limit, memory_percent's memtype validation and the statm "
+            "reader (C13). Observations: free>total, one-sided vmstat, stale cached total, float bound above 2 EiB.",
 }
